@@ -37,7 +37,6 @@ import OSProofs.MonoArithInst
 #print axioms OS.truncRounding
 #print axioms OS.truncRounding_lossy
 #print axioms OS.truncRounding_ne_id
-#print axioms OS.MonoArith.fl1_gammaNonneg_of_tag
 #print axioms OS.FL_C11_probs_range
 #print axioms OS.FL_C11_probs_range_all
 #print axioms OS.FL_C11_probs_length
